@@ -84,6 +84,12 @@ def retryHasWakeup (call : String) (c : TCtx) (o : TOut) (recheck : Bool) : Bool
   else if call = "finalisingTrafficRouting" ∧ c.hasRef ∧ ¬ o.done ∧ ¬ o.err then decide (c.grace > 0) && recheck
   else true
 
+/-- **C03.iv** — `PatchStableService` (traffic routing configured, canary Service generated) that returns without an error
+    has left the stable Service existing and pinned to the stable revision: the caller reads "no error, no retry" as
+    "pinned" and goes on to create the step's pods (theorem `RV.Props.CanaryStyle.ps_spec`). -/
+def patchMeansPinned (c : TCtx) (o : TOut) : Bool :=
+  !(c.hasRef && !c.disableGen && !o.err) || (o.net.stableExists && o.net.stableSel.getD "" == c.stableRev)
+
 def callOracles (call : String) (c : TCtx) (n : Net) (_m : Mem) (o : TOut) : List (String × Bool) :=
   [("C05.frame", frame call n o.net)] ++
   (if call = "doTrafficRouting" then
@@ -91,6 +97,7 @@ def callOracles (call : String) (c : TCtx) (n : Net) (_m : Mem) (o : TOut) : Lis
      ("C04.services_before_routes", servicesBeforeRoutes c n o.net),
      ("C03.services_before_routes", servicesBeforeRoutes c n o.net)]
    else []) ++
+  (if call = "patchStableService" then [("C03.patch_means_pinned", patchMeansPinned c o)] else []) ++
   (if call = "finalisingTrafficRouting" then
     [("C04.finalising_order", finalisingOrder c n o),
      ("C10.finalising_order", finalisingOrder c n o),
